@@ -1130,6 +1130,12 @@ def t2(ctx):
         want_uri = "/v1/%s/{%s=%s}/%s:verb" % (p[0], ".".join(mo["uri"]), tmpl, p[-1])
         if uri != want_uri:
             ctx.disagree("T2:c12.uri", f"convert_uri_fieldnames on {dotted!r}: {uri!r} vs model {want_uri!r}", {"path": p})
+        # direct oracle (no model): the variable of the converted URI is the ATTRIBUTE path of the request — every segment that is
+        # in the generator's reserved list carries one trailing underscore, at any depth (seed13_C12: only the last two of three+)
+        attr_path = ".".join(x + "_" if x in res else x for x in p)
+        if "{%s=%s}" % (attr_path, tmpl) not in uri:
+            ctx.fail("uri-variable-not-attribute-path", f"http path variable {dotted!r}: convert_uri_fieldnames gives {uri!r}, "
+                     f"the request attribute path is {attr_path!r}", {"path": p})
         bare = convert_uri_fieldnames("/v1/{%s}/x/{%s=*}" % (dotted, dotted))
         if bare != "/v1/{%s}/x/{%s=*}" % (".".join(mo["uri"]), ".".join(mo["uri"])):
             ctx.disagree("T2:c12.uri", f"convert_uri_fieldnames on bare {dotted!r}: {bare!r}", {"path": p})
